@@ -19,6 +19,7 @@ package main
 import (
 	"bufio"
 	"encoding/hex"
+	"encoding/json"
 	"flag"
 	"fmt"
 	"os"
@@ -108,9 +109,42 @@ func replaceLastRunes(line string, n int, s string) string {
 	return string(rs[:len(rs)-n]) + s
 }
 
+// replay re-runs a recorded case (evidence/replays/*.json with input.mode = "utf8"): the
+// truncated text and the text it was cut from through Reader.Read + Validate; exit 1 when the
+// truncated text is accepted with protected fields that differ from the original's.
+func replay(path string) {
+	raw, err := os.ReadFile(path)
+	if err != nil {
+		fmt.Println(err)
+		os.Exit(2)
+	}
+	var doc struct {
+		Input struct {
+			TextHex     string `json:"text_hex"`
+			OriginalHex string `json:"original_hex"`
+		} `json:"input"`
+	}
+	if err := json.Unmarshal(raw, &doc); err != nil || doc.Input.TextHex == "" {
+		fmt.Println("not a utf8 truncation case")
+		os.Exit(2)
+	}
+	text, orig := hx.Dec(doc.Input.TextHex), hx.Dec(doc.Input.OriginalHex)
+	vt, vo := verdict(text), verdict(orig)
+	fmt.Printf("original  (%d bytes): %s\ntruncated (%d bytes): %s\n", len(orig), vo, len(text), vt)
+	if strings.HasPrefix(vt, "A") && vt != vo {
+		fmt.Println("FAIL: the truncated text is accepted as a different file")
+		os.Exit(1)
+	}
+	fmt.Println("ok: rejected, or accepted with the original's protected fields")
+}
+
 func main() {
+	if len(os.Args) >= 3 && os.Args[1] == "replay" {
+		replay(os.Args[2])
+		return
+	}
 	if len(os.Args) < 2 || os.Args[1] != "corr" {
-		fmt.Fprintln(os.Stderr, "usage: c04x corr -out dir -files n [-stride s] [-strings m]")
+		fmt.Fprintln(os.Stderr, "usage: c04x corr -out dir -files n [-stride s] [-strings m] | c04x replay file")
 		os.Exit(2)
 	}
 	fs := flag.NewFlagSet("corr", flag.ExitOnError)
